@@ -43,18 +43,21 @@ pub mod p5_0;
 pub mod p5_1;
 #[path = "phases.rs"]
 pub mod p5_2;
+#[cfg(not(feature = "small"))]
+#[path = "phases.rs"]
+pub mod p6_0;
 
 /// (up, min_align, allocator kind, minimum chunk size)
-pub const SETTINGS: [(bool, usize, usize, usize); 6] = [(true, 1, 0, 1), (false, 1, 1, 1), (true, 4, 1, 1), (false, 4, 0, 512), (true, 16, 0, 512), (false, 16, 1, 1)];
+pub const SETTINGS: [(bool, usize, usize, usize); 7] = [(true, 1, 0, 1), (false, 1, 1, 1), (true, 4, 1, 1), (false, 4, 0, 512), (true, 16, 0, 512), (false, 16, 1, 1), (true, 1, 1, 1)];
 pub const ELEMS: [&str; 5] = ["E4(4/4)", "E1(1/1)", "E24(24/8)", "E16(16/16)", "EZ(zst)"];
 
 #[cfg(not(feature = "small"))]
-pub const N_SETTINGS: u64 = 6;
+pub const N_SETTINGS: u64 = 7;
 #[cfg(feature = "small")]
 pub const N_SETTINGS: u64 = 2;
 
 /// Element types exercised per setting (covering design: every element type meets both bump directions).
-pub const ELEMS_OF: [[u64; 3]; 6] = [[0, 1, 2], [1, 2, 3], [2, 3, 4], [3, 4, 0], [4, 0, 1], [0, 2, 4]];
+pub const ELEMS_OF: [[u64; 3]; 7] = [[0, 1, 2], [1, 2, 3], [2, 3, 4], [3, 4, 0], [4, 0, 1], [0, 2, 4], [2, 2, 2]];
 
 macro_rules! run3 {
     ($m0:ident, $m1:ident, $m2:ident, $A:ty, $S:ty, $e:expr, $ctx:expr, $E0:ty, $E1:ty, $E2:ty) => {
@@ -79,6 +82,9 @@ pub fn dispatch(setting: u64, slot: u64, ctx: &mut Ctx<'_>) {
         4 => run3!(p4_0, p4_1, p4_2, H0<0>, BumpSettings<16, true, true, true, true, true, 512>, slot, ctx, EZ, E4, E1),
         #[cfg(not(feature = "small"))]
         5 => run3!(p5_0, p5_1, p5_2, H8<0>, BumpSettings<16, false, true, true, true, true, 1>, slot, ctx, E4, E24, EZ),
+        // not guaranteed allocated (the arena may start without a chunk); one element type (24 bytes, align 8)
+        #[cfg(not(feature = "small"))]
+        6 => p6_0::run::<H8<0>, BumpSettings<1, true, false, true, true, true, 1>, E24>(ctx),
         _ => sim::runner::harness_bug(format!("no such setting {setting}")),
     }
 }
